@@ -2,6 +2,7 @@
 CONSTANTS
   P <- MCP
   Ext <- MCExt
+  Tokens <- MCP
   Entries <- MCEntriesFull
   Reqs <- MCReqs3
   Slots <- MCSlots1
